@@ -617,6 +617,18 @@ class Extractor:
                 ca = self.cell_ref(a, ienv)
                 if ca and ca[0] == arr and [str(x) for x in ca[1]] == [str(x) for x in idx]:
                     op, rhs, r0 = '+=', b, strip(b)
+            elif r0.get('kind') == 'BinaryOperator' and r0.get('opcode') in ('*', '/'):
+                # X = X * k,  X = k * X,  X = X / k   written out:  the same as  X *= k  /  X /= k
+                a, b = kids(r0)
+                for own, other in ((a, b), (b, a)):
+                    if own is b and r0['opcode'] == '/':
+                        continue
+                    ca = self.cell_ref(own, ienv)
+                    if ca and ca[0] == arr and [str(x) for x in ca[1]] == [str(x) for x in idx]:
+                        oc = self.cell_ref(other, ienv)
+                        if not (oc and oc[0] == arr):
+                            op, rhs, r0 = ('*=' if r0['opcode'] == '*' else '/='), other, strip(other)
+                            break
             elif r0.get('kind') == 'BinaryOperator' and r0.get('opcode') == '-' and getattr(self, 'allow_sub', False):
                 a, b = kids(r0)
                 ca = self.cell_ref(a, ienv)
